@@ -223,6 +223,24 @@ def r144(repo, ctx):
                       f'{o} is not zero-initialised and written only under the mask {src_name} {">" if op == "Gt" else "!="} 0: a non-positive driving force / zero factor can yield a non-zero {o}',
                       construct=f'{fn}: {o}')
     ctx.floor('R14.4', n, 8)
+    # one-sided comparisons: the array path of nucleationBarrier evaluates the barrier where the driving force is > 0; every other
+    # sign test of the driving force in that function (a scalar fast path, an early exit) must draw the line at the same place,
+    # otherwise a driving force of exactly 0 is divided by (Rcrit = inf, rate nan)
+    f = repo.func(NR, 'nucleationBarrier')
+    swap = {'Lt': 'Gt', 'Gt': 'Lt', 'LtE': 'GtE', 'GtE': 'LtE', 'Eq': 'Eq', 'NotEq': 'NotEq'}
+    bad, seen = [], 0
+    for c in ast.walk(f):
+        if isinstance(c, ast.Compare) and len(c.ops) == 1:
+            l, r, op = c.left, c.comparators[0], type(c.ops[0]).__name__
+            if U.is_const(l, 0) and op in swap:
+                l, r, op = r, l, swap[op]
+            if U.is_const(r, 0) and isinstance(l, ast.Name) and l.id.split('__')[0] == 'volumeDrivingForce' and op in swap:
+                seen += 1
+                if op not in ('Gt', 'LtE'):
+                    bad.append(c)
+    ctx.check(not bad and seen >= 1, 'R14.4', NR, 'nucleationBarrier', bad[0] if bad else f, f'all {seen} sign test(s) of the driving force separate > 0 from <= 0',
+              f'the sign test {U.src(bad[0]) if bad else ""} does not separate > 0 from <= 0 like the mask of the array path: a driving force of exactly 0 takes the branch that divides by it '
+              '(critical radius inf, barrier inf or nan, rate nan) or a positive rate is returned for it', construct='nucleationBarrier: sign tests of the driving force')
     # incubation factor bounded by 1
     f = repo.func(NR, 'nucleationRate')
     ok = any(isinstance(c, ast.Call) and U.call_name(c) in ('np.amin', 'np.minimum') and 'np.exp(-tau' in U.src(c).replace(' ', '').replace('np.exp(-tau', 'np.exp(-tau') and 'np.ones' in U.src(c) for c in U.calls(f))
